@@ -213,6 +213,33 @@ def history(ctx, rng, desc, hid):
                 ops.append(("resubscribe", name))
                 cmaps[name].subscribe()
                 ctx.case((f"{pk}->{ck}", "resubscribe", cmaps[name].enabled), nontrivial=True)
+            elif r < 0.915 and not collide:
+                # the answer comes back on the same COB-ID: map A, which has been receiving, now produces and the
+                # (subscribed) producer map receives.  Writing into a map that holds a received frame is ordinary use.
+                i = rng.randrange(len(fields))
+                dt, ln = fields[i]
+                v = rng.choice(field_values(rng, dt, ln, 4)[:40])
+                if ln < R.width(dt) and dt in R.INTEGERS and not (R.int_range(dt)[0] <= v <= R.int_range(dt)[1]):
+                    continue
+                ops.append(("answer-on-same-cob", i, v))
+                am = cmaps["A"]
+                before_other = {n: (bytes(m.data), m.timestamp) for n, m in cmaps.items() if n != "A"}
+                am[i].raw = v
+                mark = len(bus.log)
+                am.transmit()
+                sent = [f for f in list(bus.log)[mark:] if f.src == "consumer"]
+                ctx.count("transmissions_checked")
+                ctx.case((f"{pk}->{ck}", "answer-on-same-cob", lcls), nontrivial=True)
+                if len(sent) != 1 or sent[0].can_id != cob or sent[0].data != bytes(am.data) or sent[0].rtr:
+                    ctx.violation("transmit-frame", f"transmit() on a map that had received put {[f.brief() for f in sent]} on the bus, expected {cob:#x} [{bytes(am.data).hex()}]", case())
+                    continue
+                want = PB.field_value(PB.read_field(bytes(am.data), sum(l for _, l in fields[:i]), ln), dt, ln)
+                got = pm[i].raw
+                ctx.count("consumer_values_compared")
+                if bytes(pm.data) != bytes(am.data) or pm.timestamp != sent[0].ts or not (R.same_float(got, want) if dt in R.REALS else int(got) == want):
+                    ctx.violation("consumer-value-mismatch:answer", f"the subscribed map on the other side holds {bytes(pm.data).hex()} ts {pm.timestamp!r} field {i} = {got!r}; frame {sent[0].brief()} holds {want!r}", case())
+                if {n: (bytes(m.data), m.timestamp) for n, m in cmaps.items() if n != "A"} != before_other:
+                    ctx.violation("unsubscribed-map-changed", "a map of the transmitting node changed while map A transmitted", case())
             elif r < 0.93:
                 # unrelated traffic must not touch any map
                 before = snapshot()
@@ -249,6 +276,8 @@ def history(ctx, rng, desc, hid):
 def run_waits(ctx, desc):
     rng = random.Random(repr(("c15w", desc["cs"])))
     for rnd in range(desc["rounds"]):
+        if sum(ctx.violation_counts.values()) >= 6:
+            break               # waits that go wrong cost their full time-out each: a few witnesses are enough
         bus = simbus.SimBus(mode="threaded", seed=desc["cs"] + rnd, max_delay=0.0005)
         pnet, pst = simbus.make_network(bus, "producer")
         cnet, cst = simbus.make_network(bus, "consumer")
@@ -297,6 +326,22 @@ def run_waits(ctx, desc):
             ctx.inconc(f"wait_for_reception after stale: {status}", case)
         elif status != "returned" or val is not None:
             ctx.violation("wait-for-reception-satisfied-by-earlier-frame", f"a frame arrived before the wait and nothing after; wait_for_reception returned {val!r}", case)
+        # interfaces without hardware timestamps (0.0) or with a coarse clock deliver consecutive frames with the same
+        # timestamp: the frame that arrives during the wait is still "a reception" and its timestamp is returned
+        for same_ts in (0.0, 1234.5):
+            raw = bytes(cm.data)
+            cnet.notify(0x180 + K, bytearray(raw), same_ts)          # earlier frame, nobody waiting
+            status, val = waits.run_waiter(lambda: cm.wait_for_reception(4), cond,
+                                           lambda: cnet.notify(0x180 + K, bytearray(raw), same_ts))
+            ctx.count("wait_cases")
+            ctx.case(("wait-reception-same-timestamp", same_ts), nontrivial=True)
+            if status in ("hung", "never-waited"):
+                ctx.inconc(f"wait_for_reception same timestamp: {status}", case)
+            elif status == "not-woken":
+                ctx.violation("waiter-not-woken", "a frame with the same timestamp as its predecessor did not wake the reader", case)
+            elif status != "returned" or val is None or val != same_ts:
+                ctx.violation("wait-for-reception:same-timestamp", f"a frame arrived during the wait carrying the same timestamp {same_ts!r} as the previous one; "
+                              f"wait_for_reception ended {status} with {val!r}", case)
         # several readers wait at once: one frame wakes them all
         sent2 = {}
 
